@@ -38,13 +38,13 @@ THEOREM_CLASSES = {
     "C02_rt_is_modular_add": "main", "C02_rt_is_modular_sub": "main", "C02_rt_is_modular_mul": "main", "C02_rt_is_modular_unm": "main",
     "C02_rt_is_modular_bitwise": "main", "C02_rt_is_modular_idiv_mod": "main", "C02_rt_shift_helpers": "main",
     "C02_rt_is_modular_shifts_refuted": "refutation", "C02_rt_is_modular_shifts_partial": "main",
-    "C02_rt_context_independent": "main", "C02_const_count_shift_eq_helper_8bit": "corollary",
+    "C02_rt_context_independent": "main", "C02_rt_context_independent_iff_policy": "tripwire", "C02_const_count_shift_eq_helper_8bit": "corollary",
     "C02_comparisons_agree": "main", "C02_fold_agrees_partial_arith": "main", "C02_fold_exact_partial": "main",
     "C02_wrap_value_correct": "main", "C02_baked_literal": "main", "C02_conv_rejected_iff": "definitional",
 }
 UNPROVED = [
     "fold_agrees (Proofs.fold_agrees_at) is proved for + - * only (typed operands, all types and values); for // % /// %%% | ~ & << >> >>> the same statement is evaluated by the oracle on every case (proved pieces: fold exactness for + - * // % incl. untyped literals when the result fits 64 bits, run-time modularity of every operator but /// %%% and unsigned // %, comparisons)",
-    "run-time theorems are about the STORED value of an operator result; that a result consumed directly by another operator has the same value is C02_rt_context_independent (model, run-time and compile-time shift counts, its cast conditions scraped from the emitter) + the fixed list NESTED_PROBES (implementation); deeper nesting, right-nested and half-constant nested forms other than a literal shift count: not modelled",
+    "run-time theorems are about the STORED value of an operator result; that a result consumed directly by another operator has the same value is C02_rt_context_independent (model, run-time counts and - for the shifts - compile-time counts; it holds exactly under the cast policy scraped from the emitter, condition together with the emitted cast: C02_rt_context_independent_iff_policy) + the fixed list NESTED_PROBES (implementation); deeper nesting, right-nested and half-constant nested forms other than a literal shift count: not modelled",
     "`///` `%%%` and unsigned `//` `%` at run time, unary `~` on both sides, fold_un: correspondence only",
     "half-constant forms (one operand a baked literal), the C type of the emitted literal (Model.lit_ctype), untyped literals at run time: correspondence/probes only",
     "floats (float32/float64 operands, `/`, `^`): no theorem and no model clause (in particular none for pow/fmod: no C99 Annex F case is vouched for by Coq); fold (the compiler's own Lua VM, rebuilt from the repository under test) vs run time (libm) compared as printed by %a - bit for bit up to the NaN payload, sign of zero and of infinity included - on generated probes plus the fixed grid FLOAT_SPECIAL_GRID (`^` `%` `%%%` `//` `///` `/` unary - on +-inf, +-0, nan, negative and subnormal bases x exponents/divisors 0.5 -0.5 2 -2 -1 +-0 +-inf nan 1/3 3 1 1.5; 793 probes, every run); float32 folding is an open finding",
@@ -161,37 +161,61 @@ def _fn_body(src, header):
     return src[i:j]
 
 
+def _nocomment(text):
+    """Lua source with `--` line comments removed and white space collapsed (no long strings/comments in these functions)."""
+    return re.sub(r"\s+", " ", "\n".join(re.sub(r"--.*$", "", l) for l in text.split("\n"))).strip()
+
+
 def scrape_cast_rules():
-    """Which operator results the emitter casts to their own type (cbuiltins.lua).  Each flag is the
-    presence of the discriminating condition / emitted shape; an unknown shape of the surrounding code raises."""
+    """Which operator results the emitter casts to their own type (cbuiltins.lua).  Every flag is decided by the
+    discriminating CONDITION TOGETHER WITH THE STATEMENT IT GUARDS (comments stripped): the repaired shape gives true,
+    the shape before the repair gives false, anything else raises (the model would no longer describe the code)."""
     src = vlib.repo_read("lualib/nelua/cbuiltins.lua")
-    bop = _fn_body(src, "local function operator_binary_op(")
-    if "ltype.is_unsigned ~= rtype.is_unsigned" not in bop or "emitter:add('(', lname, ' ', op, ' ', rname, ')')" not in bop:
-        raise RuntimeError("operator_binary_op changed shape")
-    unm = _fn_body(src, "function cbuiltins.operators.unm(")
-    bnot = _fn_body(src, "function cbuiltins.operators.bnot(")
-    tdiv = _fn_body(src, "function cbuiltins.operators.tdiv(")
-    tmod = _fn_body(src, "function cbuiltins.operators.tmod(")
-    shl = _fn_body(src, "function cbuiltins.operators.shl(")
-    shr = _fn_body(src, "function cbuiltins.operators.shr(")
-    asr = _fn_body(src, "function cbuiltins.operators.asr(")
-    fast = "rattr.comptime and rattr.value >= 0 and rattr.value < ltype.bitsize"
-    if fast not in shl or fast not in asr or ("ltype.is_unsigned and " + fast) not in shr:
-        raise RuntimeError("the constant-count fast paths of operators.shl/shr/asr changed shape")
-    if "emitter:add('((',ltype,')((',ltype:unsigned_type(),')', lname, ' << ', rname, '))')" not in shl:
-        raise RuntimeError("operators.shl: the signed fast path changed shape")
-    if "emitter:add('(', lname, ' >> ', rname, ')')" not in shr or "emitter:add('(', lname, ' >> ', rname, ')')" not in asr:
-        raise RuntimeError("operators.shr/asr: the fast path changed shape")
-    mixed = "ltype.is_integral and rtype.is_integral and ltype.is_unsigned ~= rtype.is_unsigned"
-    if mixed not in tdiv or mixed not in tmod:
-        raise RuntimeError("operators.tdiv/tmod: the mixed-signedness branch changed shape")
-    return {
-        "binop_casts_subint": bool(re.search(r"type\.is_integral and type\.size < primtypes\.cint\.size", bop)),
-        "unop_casts_subint": ("argattr.type.size < primtypes.cint.size" in unm) and ("argattr.type.size < primtypes.cint.size" in bnot),
-        "tdiv_mixed_casts_back": ("emitter:add('((', type, ')((', type, ')', lname, ' / (', type, ')', rname, '))')" in tdiv) and
-                                 ("emitter:add('((', type, ')((', type, ')', lname, ' % (', type, ')', rname, '))')" in tmod),
-        "shl_fast_casts_unsigned_subint": bool(re.search(r"ltype\.is_unsigned and ltype\.size < primtypes\.cint\.size", shl)),
-    }
+    bop = _nocomment(_fn_body(src, "local function operator_binary_op("))
+    unm = _nocomment(_fn_body(src, "function cbuiltins.operators.unm("))
+    bnot = _nocomment(_fn_body(src, "function cbuiltins.operators.bnot("))
+    tdiv = _nocomment(_fn_body(src, "function cbuiltins.operators.tdiv("))
+    tmod = _nocomment(_fn_body(src, "function cbuiltins.operators.tmod("))
+    shl = _nocomment(_fn_body(src, "function cbuiltins.operators.shl("))
+    shr = _nocomment(_fn_body(src, "function cbuiltins.operators.shr("))
+    asr = _nocomment(_fn_body(src, "function cbuiltins.operators.asr("))
+
+    def decide(what, text, repaired, before):
+        if repaired in text and before not in text:
+            return True
+        if before in text and repaired not in text:
+            return False
+        raise RuntimeError("%s: neither the repaired nor the previous condition+statement is present (model out of date)" % what)
+
+    plain = "else assert(ltype.is_arithmetic and rtype.is_arithmetic) emitter:add('(', lname, ' ', op, ' ', rname, ')') end"
+    if plain not in bop:
+        raise RuntimeError("operator_binary_op: the plain branch changed shape")
+    binop = decide("operator_binary_op", bop,
+        "if ltype.is_integral and rtype.is_integral and ((ltype.is_unsigned ~= rtype.is_unsigned and not lattr.comptime and not rattr.comptime) or "
+        "(type.is_integral and type.size < primtypes.cint.size)) then emitter:add('(',type,')(', lname, ' ', op, ' ', rname, ')') elseif",
+        "if ltype.is_integral and rtype.is_integral and ltype.is_unsigned ~= rtype.is_unsigned and not lattr.comptime and not rattr.comptime then "
+        "emitter:add('(',node.attr.type,')(', lname, ' ', op, ' ', rname, ')') elseif")
+    # unary operators: recorded in the evidence only (no nested model uses it, so nothing is raised here)
+    unop = "if argattr.type.is_integral and argattr.type.size < primtypes.cint.size then emitter:add('((', argattr.type, ')-', argname, ')') else emitter:add('(-', argname, ')') end" in unm
+    unop2 = "if argattr.type.size < primtypes.cint.size then emitter:add('((', argattr.type, ')~', argname, ')') else emitter:add('(~', argname, ')') end" in bnot
+    mixed = "elseif ltype.is_integral and rtype.is_integral and ltype.is_unsigned ~= rtype.is_unsigned then "
+    td = decide("operators.tdiv", tdiv, mixed + "emitter:add('((', type, ')((', type, ')', lname, ' / (', type, ')', rname, '))') else",
+                mixed + "emitter:add('((', type, ')', lname, ' / (', type, ')', rname, ')') else")
+    tm = decide("operators.tmod", tmod, mixed + "emitter:add('((', type, ')((', type, ')', lname, ' % (', type, ')', rname, '))') else",
+                mixed + "emitter:add('((', type, ')', lname, ' % (', type, ')', rname, ')') else")
+    if td != tm:
+        raise RuntimeError("operators.tdiv and operators.tmod treat mixed signedness differently: not modelled")
+    fast = "if rattr.comptime and rattr.value >= 0 and rattr.value < ltype.bitsize then "
+    signed_tail = "else emitter:add('((',ltype,')((',ltype:unsigned_type(),')', lname, ' << ', rname, '))') end else emitter:add_builtin('nelua_shl_', type)"
+    sh = decide("operators.shl fast path", shl,
+                fast + "if ltype.is_unsigned and ltype.size < primtypes.cint.size then emitter:add('((', ltype, ')(', lname, ' << ', rname, '))') "
+                "elseif ltype.is_unsigned then emitter:add('(', lname, ' << ', rname, ')') " + signed_tail,
+                fast + "if ltype.is_unsigned then emitter:add('(', lname, ' << ', rname, ')') " + signed_tail)
+    if ("if ltype.is_unsigned and rattr.comptime and rattr.value >= 0 and rattr.value < ltype.bitsize then emitter:add('(', lname, ' >> ', rname, ')') else emitter:add_builtin('nelua_shr_', type)" not in shr
+            or fast + "emitter:add('(', lname, ' >> ', rname, ')') else emitter:add_builtin('nelua_asr_', type)" not in asr):
+        raise RuntimeError("operators.shr/asr: the constant-count fast path changed shape")
+    return {"binop_casts_subint": binop, "tdiv_mixed_casts_back": td, "shl_fast_casts_unsigned_subint": sh,
+            "unop_casts_subint (recorded only: unary operators have no nested model)": bool(unop) and bool(unop2)}
 
 
 def gen(ctx):
@@ -239,7 +263,8 @@ def gen(ctx):
     disc = scrape_cast_rules()
     L += ["(* discriminating conditions of the emitter (cbuiltins.lua), scraped: which results are cast to their type *)"]
     for k in sorted(disc):
-        L.append("Definition %s : bool := %s." % (k, "true" if disc[k] else "false"))
+        if " " not in k:
+            L.append("Definition %s : bool := %s." % (k, "true" if disc[k] else "false"))
     L.append("")
     for k in ("lt", "eq"):
         L.append("Definition %s_table : list (ity * ity * cfun) := [" % k)
